@@ -251,10 +251,16 @@ class ResourcePeriodicallyUnavailable(ResourceConstraint):
                 for start_task_i, end_task_i in worker.get_busy_intervals():
                     resource_assigned = True
                     duration = end_task_i - start_task_i
+                    # the task lies either before the interval in its own period,
+                    # or after it and then before the same interval of the next period
                     conds = [
                         z3.Xor(
-                            (start_task_i - self.offset) % self.period
-                            >= interval_upper_bound,
+                            z3.And(
+                                (start_task_i - self.offset) % self.period
+                                >= interval_upper_bound,
+                                (start_task_i - self.offset) % self.period + duration
+                                <= interval_lower_bound + self.period,
+                            ),
                             (start_task_i - self.offset) % self.period + duration
                             <= interval_lower_bound,
                         )
@@ -507,7 +513,11 @@ class ResourcePeriodicallyInterrupted(ResourceConstraint):
                         # ...otherwise make sure the task does not overlap with any of time intervals
                         conds.append(
                             z3.Xor(
-                                folded_start_task_i >= interval_upper_bound,
+                                z3.And(
+                                    folded_start_task_i >= interval_upper_bound,
+                                    folded_start_task_i + duration
+                                    <= interval_lower_bound + self.period,
+                                ),
                                 folded_start_task_i + duration <= interval_lower_bound,
                             )
                         )
